@@ -55,3 +55,5 @@ def run(chk, tier, seed, replay):
                     chk.mismatch({"model": kind, "spectrum": sp, "hist": h}, bad, what="PCA bookkeeping history disagrees with the specification")
             chk.sample({"spectrum": SPECTRA[cfg], "history": [{k: e[k] for k in ("op", "arg", "res")} for e in hs[len(hs) // 2]]})
         run_cases(chk, "batch", "MC_PCA", "MC_PCA_c10.cfg" if tier == "quick" else "MC_PCA_c10t.cfg", s, ad.run_case)
+        # the blocked in-place products behind the d >= n path (Blocks.tla: the blocks partition the axis for every n, b)
+        run_cases(chk, "blocks", "Blocks", "MC_Blocks.cfg", s, ad.run_case, key=lambda o: json.dumps(o["case"], sort_keys=True))
